@@ -3,7 +3,7 @@
 From Coq Require Import List ZArith String Bool.
 Import ListNotations.
 Require Import Naga.Base.Json Naga.IR.Syntax Naga.IR.Decode.
-Require Import Naga.Valid.ValidatorModel Naga.Valid.CfLegal Naga.Valid.Reach Naga.Valid.BindingRule.
+Require Import Naga.Valid.ValidatorModel Naga.Valid.ValidatorModelFixed Naga.Valid.CfLegal Naga.Valid.Reach Naga.Valid.BindingRule.
 Require Extraction.
 Require Import ExtrOcamlBasic.
 Open Scope string_scope.
@@ -62,6 +62,7 @@ Definition class_name (c : vclass) : string :=
   | VEpVertexNoResult => "VEpVertexNoResult"
   | VEpVertexNoPosition => "VEpVertexNoPosition"
   | VEpWorkgroupZero => "VEpWorkgroupZero"
+  | VEpDupBinding => "VEpDupBinding"
   end.
 
 Definition jerr (e : verror) : json :=
@@ -90,6 +91,7 @@ Definition entry (j : json) : json :=
   | Ok m =>
     JObj [("ok", JBool true);
           ("errors", JArr (map jerr (validate_model m)));
+          ("errors_fixed", JArr (map jerr (validate_model_fx m)));
           ("functions", JArr (map (jfn m) (m_functions m)));
           ("entry_points", JArr (map (jep m) (m_entry_points m)));
           ("binding_rule_ok", JBool (binding_rule_okb m));
